@@ -40,7 +40,7 @@ func c10Cases() []c10Case {
 				for _, ns := range []bool{false, true} {
 					for _, tol := range []bool{false, true} {
 						for _, na := range []string{"absent", "good", "malformed", "ghost", "neighbour"} {
-							for _, st := range []string{"none", "main-requests", "main-limits", "main-both", "side", "error-status"} {
+							for _, st := range []string{"none", "main-requests", "main-limits", "main-both", "side", "main-twice", "error-status"} {
 								for _, mode := range []bool{false, true} {
 									out = append(out, c10Case{nc, tr, af, ns, tol, na, st, mode})
 								}
@@ -131,6 +131,11 @@ func c10Setting(c c10Case, cpu string) *v1.ExtendedDaemonsetSetting {
 		s.Spec.Containers = []v1.ExtendedDaemonsetSettingContainerSpec{{Name: "main", Resources: corev1.ResourceRequirements{Requests: req, Limits: lim}}}
 	case "side":
 		s.Spec.Containers = []v1.ExtendedDaemonsetSettingContainerSpec{{Name: "side", Resources: corev1.ResourceRequirements{Requests: req}}}
+	case "main-twice":
+		// the list names the same container twice with different values (the schema does not forbid it): whichever entry
+		// the controller applies, it must apply the same one when it compares
+		s.Spec.Containers = []v1.ExtendedDaemonsetSettingContainerSpec{{Name: "main", Resources: corev1.ResourceRequirements{Requests: req}},
+			{Name: "main", Resources: corev1.ResourceRequirements{Requests: corev1.ResourceList{corev1.ResourceCPU: qty("450m")}}}}
 	case "error-status":
 		s.Spec.Containers = []v1.ExtendedDaemonsetSettingContainerSpec{{Name: "main", Resources: corev1.ResourceRequirements{Requests: req}}}
 		s.Status.Status = v1.ExtendedDaemonsetSettingStatusError
@@ -285,7 +290,11 @@ func c10Eval(t *testing.T, run *h.Run, c c10Case) {
 		// --- resources
 		for _, ct := range p.Spec.Containers {
 			want := c10Expected(c, &tpl, ct.Name, annotVal, set)
-			if !apiequality.Semantic.DeepEqual(ct.Resources, want) {
+			okAlt := false
+			if c.Setting == "main-twice" && ct.Name == "main" && c.NodeAnnot != "good" && set != nil {
+				okAlt = apiequality.Semantic.DeepEqual(ct.Resources, set.Spec.Containers[1].Resources) // either entry is accepted
+			}
+			if !okAlt && !apiequality.Semantic.DeepEqual(ct.Resources, want) {
 				viol("C10/resources: container resources are not annotation > valid setting > template", fmt.Sprintf("container %s got %v want %v", ct.Name, ct.Resources, want))
 			}
 		}
